@@ -85,6 +85,19 @@ def run_history(desc):
             stock.lifetime_model.set_prms(**{k: sg.build_prm(U, p) for k, p in s["prms"].items()})
             if computed:
                 set_after_compute = True
+        elif op == "settings":
+            # the inflow instant / quadrature order are changed on the model the stock holds, then the
+            # parameters are set again (the documented way to make a model recompute its tables)
+            if cur_lt is None:
+                continue
+            new_lt = dict(cur_lt, inflow_at=s["inflow_at"], n_pts=s["n_pts"])
+            guard(cfg, new_lt)
+            cur_lt = new_lt
+            stock.lifetime_model.inflow_at = s["inflow_at"]
+            stock.lifetime_model.n_pts_per_interval = s["n_pts"]
+            stock.lifetime_model.set_prms(**{k: sg.build_prm(U, p) for k, p in cur_lt["prms"].items()})
+            if computed:
+                set_after_compute = True
         elif op == "read":
             if cur_lt is None:
                 continue
@@ -119,8 +132,11 @@ def histories(draw, max_steps=8):
     n = gen._size(U, gen.uletters(U))
     steps = []
     for _ in range(draw(st.integers(2, max_steps))):
-        op = draw(st.sampled_from(["set_driver", "set_prms", "set_prms", "compute", "compute", "compute2", "read"]))
+        op = draw(st.sampled_from(["set_driver", "set_prms", "set_prms", "compute", "compute", "compute2", "read", "settings"]))
         s = {"op": op, "how": draw(st.integers(0, 5))}
+        if op == "settings":
+            s["inflow_at"] = draw(st.sampled_from(["start", "middle", "end"]))
+            s["n_pts"] = draw(st.sampled_from([1, 1, 2, 3, 5]))
         if op == "set_driver":
             s["vals"] = draw(st.lists(st.floats(0.0, 50.0), min_size=n, max_size=n))
         elif op == "set_prms" and "lt" in cfg:
